@@ -135,6 +135,17 @@ def _steps_of(hist, name):
             elif f in ("record", "cold", "warm"):
                 st["fn"] = {"record": 24, "cold": 13, "warm": 14}[f]
                 st["hdrs"] = []
+            elif f in ("frz", "frznr", "frzclr", "frzclrnr", "frzat", "frzatnr"):
+                st["fn"] = {"frz": 7, "frznr": 8, "frzclr": 9, "frzclrnr": 10, "frzat": 11, "frzatnr": 12}[f]
+                g20 = {"g": 20, "v": 0, "q": 6}
+                g30 = {"g": 30, "v": 0, "q": 6}
+                ob = h.get("ob", "all")
+                st["hdrs"] = {"all": [g20], "rng": [{"g": 20, "v": 0, "q": 0, "start": 0, "stop": 1}],
+                              "gb": [g20, g30], "bg": [g30, g20], "bad": [g30],
+                              # g50v2: time 5000, interval 60000 ms
+                              "timed": [{"g": 50, "v": 2, "q": 7, "count": 1, "data": "88130000000060ea0000"}, g20]}[ob]
+                if h.get("bad") == "reject":
+                    st["tag"] = {"cls": "reject"}
             elif f in ("wtabs", "wtlast"):
                 st["fn"] = "write"
                 st["hdrs"] = [{"g": 50, "v": 1 if f == "wtabs" else 3, "q": 7, "count": 1, "data": "881300000000"}]
